@@ -1,8 +1,8 @@
 CHECK = {
     "suites": [
-        suite("pins", "c14", 300, 3000, stdin=True, args=["-suite", "pins"], timeout={"quick": 600, "thorough": 1800}),
-        suite("rot", "c14", 300, 3000, stdin=True, args=["-suite", "rot"], timeout={"quick": 600, "thorough": 1800}),
-        suite("ps", "c14", 400, 6000, stdin=True, args=["-suite", "ps"], timeout={"quick": 600, "thorough": 1800}),
+        suite("pins", "c14", 400, 4000, stdin=True, args=["-suite", "pins"], timeout={"quick": 600, "thorough": 1800}),
+        suite("rot", "c14", 400, 4000, stdin=True, args=["-suite", "rot"], timeout={"quick": 600, "thorough": 1800}),
+        suite("ps", "c14", 800, 8000, stdin=True, args=["-suite", "ps"], timeout={"quick": 600, "thorough": 1800}),
     ],
     "lean_sources": ["ClusterVerif/Model/C14.lean", "ClusterVerif/Spec/C14.lean", "ClusterVerif/Lemmas/C14.lean"],
     "rule": "pins: (pinset of 0-40 generated pins over all types/options, prior content of the target, stream damage) through "
